@@ -5,7 +5,7 @@ package main
 func (p *Path) strAt(s StringVal, i *Term) *Term {
 	if i.C {
 		k := int(i.U)
-		if k < len(s.b) {
+		if k >= 0 && k < len(s.b) {
 			return s.b[k]
 		}
 		return mkBV(8, 0)
@@ -232,7 +232,7 @@ func (p *Path) strToUpper(s StringVal) StringVal {
 	return p.strMapBytes(s, func(b *Term) *Term {
 		if b.C {
 			if b.U >= 0x80 {
-				p.end("unsupported", "non-ASCII byte in ToUpper model")
+				return b // only reachable beyond the string's length (in-range bytes are assumed ASCII by the caller)
 			}
 			if b.U >= 'a' && b.U <= 'z' {
 				return mkBV(8, b.U-0x20)
@@ -248,7 +248,7 @@ func (p *Path) strToLower(s StringVal) StringVal {
 	return p.strMapBytes(s, func(b *Term) *Term {
 		if b.C {
 			if b.U >= 0x80 {
-				p.end("unsupported", "non-ASCII byte in ToLower model")
+				return b
 			}
 			if b.U >= 'A' && b.U <= 'Z' {
 				return mkBV(8, b.U+0x20)
